@@ -44,7 +44,7 @@ var props = map[string]*PropSpec{
 	},
 	"C15": {
 		Level:        "exploration",
-		Scens:        []ScenSpec{{ID: "C15", Env: []string{"ENGINE_ADMIN_PORT=18081"}, Batch: 40, QuickRuns: 2000, QuickSecs: 90, ThoroughRuns: 200000, ThoroughSecs: 600}},
+		Scens:        []ScenSpec{{ID: "C15", Env: []string{"ENGINE_ADMIN_PORT=18081"}, Batch: 100, QuickRuns: 20000, QuickSecs: 120, ThoroughRuns: 2000000, ThoroughSecs: 600}},
 		CoverageRule: "each run = one generated access-log stream (5-120 records: methods, URLs whose sibling count crosses a small convergence threshold of 2-5, nested parameters, statuses, durations, consumer tags, interceptor strings, internal records) delivered to the real discovery.Run / State / BuildTree once as a single batch and 2-4 more times under seeded batch splits (incl. empty and singleton batches), half of them with restarts between batches after which only the state file survives (new State from the file, new URL tree); non-trivial = more non-internal records than the threshold; distinct = (stream, split, restart) signatures among non-trivial runs",
 		Assumptions: []string{
 			"averages are compared with 1e-3 relative tolerance (float32, count-weighted re-combination)",
